@@ -116,7 +116,9 @@ impl InstructionGenerator {
     }
 
     fn generate_stash_by_ref_args(&mut self, args: &Expressions) {
-        for (index, Positioned { element: arg, pos }) in args.iter().enumerate() {
+        // the values are pushed onto a stack in reverse order, so that the first argument is popped
+        // first and a call nested in the write-back (e.g. A(F(I)) as an argument) only sees its own values
+        for (index, Positioned { element: arg, pos }) in args.iter().enumerate().rev() {
             if arg.is_by_ref() {
                 self.push(Instruction::EnqueueToReturnStack(index), *pos);
             }
